@@ -204,7 +204,7 @@ pub fn run(args: &Args) {
     cfg.big_choices_pct = 12;
     cfg.long_literals_pct = 10;
     cfg.negpred_pct = 6;
-    cfg.prefix_family_pct = 8;
+    cfg.prefix_family_pct = 16;
     for gi in 0..n_grammars {
         if rep.elapsed() > args.max_s {
             rep.notes.insert("stopped_early_at_grammar".into(), json!(gi));
